@@ -8,7 +8,7 @@
    the file layer preserves and what it does not (gbk, a table, stays an oracle).
    [in_order] (Spec/C20.v) is "each middleware applied to the result of the one before, left to right". *)
 From Coq Require Import String List NArith ZArith Bool.
-From BP Require Import Base.Chars Model.Blocks Model.Writer Model.Stack Spec.C20 Proofs.StackProofs Model.TextIO Proofs.TextIOProofs.
+From BP Require Import Base.Chars Model.Blocks Model.Writer Model.Stack Spec.C20 Proofs.StackProofs Model.TextIO Proofs.TextIOProofs Proofs.TextIOChunks.
 Import ListNotations.
 
 (* parse_string = splitting, then exactly the given parse_stack in the given order, or the default stack followed by
@@ -156,6 +156,24 @@ Print Assumptions C20_text_write_total_utf8.
 Theorem C20_text_write_refuses_surrogates : forall s, scalars s = false -> write_text Utf8 s = None.
 Proof. exact write_refuses_surrogates_utf8. Qed.
 Print Assumptions C20_text_write_refuses_surrogates.
+
+(* open() reads and decodes a file in chunks; the model decodes it at once.  That is the same thing: decoding is compositional
+   at character boundaries, newline translation wherever the cut does not follow a carriage return (where CPython's incremental
+   newline decoder keeps a pending character) - and only there *)
+Theorem C20_text_utf8_chunks : forall a b s, utf8_decode a = Some s ->
+  utf8_decode (a ++ b) = option_map (app s) (utf8_decode b).
+Proof. exact utf8_decode_app. Qed.
+Print Assumptions C20_text_utf8_chunks.
+Theorem C20_text_newline_chunks : forall a b, ends_in_cr a = false -> nl_read (a ++ b) = nl_read a ++ nl_read b.
+Proof. exact nl_read_app. Qed.
+Print Assumptions C20_text_newline_chunks.
+Theorem C20_text_newline_chunks_refuted_at_cr : nl_read ([97; 13] ++ [10; 98]) <> nl_read [97; 13] ++ nl_read [10; 98].
+Proof. exact nl_read_app_refuted_at_cr. Qed.
+Print Assumptions C20_text_newline_chunks_refuted_at_cr.
+Theorem C20_text_read_chunks : forall a b s t, utf8_decode a = Some s -> utf8_decode b = Some t -> ends_in_cr s = false ->
+  read_text Utf8 (a ++ b) = option_map (app (nl_read s)) (read_text Utf8 b).
+Proof. exact read_text_utf8_app. Qed.
+Print Assumptions C20_text_read_chunks.
 
 (* non-vacuity: a document with a non-ASCII letter, an astral character and a CRLF line end, through each codec *)
 Example C20_text_example :
